@@ -25,7 +25,8 @@ import (
 )
 
 func main() {
-	Main(map[string]Runner{"pool": runPool, "priority": runPriority, "race": runRace, "race-child": runRaceChild, "content": runContent, "batches": runBatches})
+	Main(map[string]Runner{"pool": runPool, "pool-child": runPoolChild, "priority": runPriority, "race": runRace, "race-child": runRaceChild, "content": runContent, "batches": runBatches,
+		"entries": runEntries})
 }
 
 func errClassPool(err error) int64 {
@@ -125,6 +126,8 @@ type poolRun struct {
 	vk         *viewKeeper                   // views of pooled positions handed out earlier and still held (views.go)
 	what       string                        // the operation being made (for the details of failing oracles)
 	sib        map[types.Address][]*sibling // competitors prepared while their parent was the frontier (ladder.go)
+	quiet      *wallet.KeyPair               // an account nobody looks at after every operation: it is read (rpc-style) only now and then (reorg.go)
+	broken     bool                          // the clause failed after a momentum delete: the history ends (reorg.go)
 }
 
 func (r *poolRun) views() map[types.Address]acctView {
@@ -161,6 +164,7 @@ func (r *poolRun) emitStep(before acctView, opTerm M, code int64, after acctView
 }
 
 func (r *poolRun) checkAll(before map[types.Address]acctView, touched types.Address, addOp bool) map[types.Address]acctView {
+	defer r.progress()
 	after := r.views()
 	r.observeViews(r.what, r.viewAccounts())
 	for a, v := range after {
@@ -176,7 +180,20 @@ func (r *poolRun) checkAll(before map[types.Address]acctView, touched types.Addr
 	return after
 }
 
+// every history runs in a process of its own (isolate.go): a node whose pool is broken can end the process in a way
+// that no recover() catches (a panic inside an insert / delete notification is followed by "fatal error: sync: unlock
+// of unlocked mutex" in momentumPool.AddMomentumTransaction); the parent then still has every verdict up to that
+// point and reports the death itself as a failing oracle
 func runPool(rng *rand.Rand, n int, out *Out, _ []string) {
+	if os.Getenv("C14_INPROC") != "" {
+		runPoolChild(rng, n, out, nil)
+		return
+	}
+	for h := 0; h < n; h++ {
+		runIsolated("pool-child", rng.Int63(), 1, out, "pool-history-process-survives", fmt.Sprintf("pool history %d", h))
+	}
+}
+func runPoolChild(rng *rand.Rand, n int, out *Out, _ []string) {
 	for h := 0; h < n; h++ {
 		poolHistory(rng, out)
 	}
@@ -185,7 +202,7 @@ func runPool(rng *rand.Rand, n int, out *Out, _ []string) {
 func poolHistory(rng *rand.Rand, out *Out) {
 	nd := NewNode()
 	defer nd.Stop()
-	r := &poolRun{nd: nd, rng: rng, out: out, users: []*wallet.KeyPair{g.User1, g.User2, g.User3}, vk: &viewKeeper{}, sib: map[types.Address][]*sibling{}}
+	r := &poolRun{nd: nd, rng: rng, out: out, users: []*wallet.KeyPair{g.User1, g.User2, g.User3}, vk: &viewKeeper{}, sib: map[types.Address][]*sibling{}, quiet: g.User4}
 	// every insert / delete notification of the chain is observed (compete.go)
 	r.lis = &poolListener{r: r}
 	nd.Ch.Register(r.lis)
@@ -215,7 +232,14 @@ func poolHistory(rng *rand.Rand, out *Out) {
 		bigAt = rng.Intn(steps)
 	}
 	for s := 0; s < steps; s++ {
+		if r.broken {
+			// the pool does not follow the ledger after a momentum delete (reported): whatever is done on this node from here
+			// on says nothing more, and a momentum insert on it can end the process
+			out.Count("pool:history-ended:clause-failed-after-a-momentum-delete")
+			return
+		}
 		u := r.users[rng.Intn(len(r.users))]
+		r.quietStep()
 		if s == bigAt {
 			// more pooled blocks than a momentum takes: the next momentum confirms only a part, the rest is rebuilt
 			nbig := chain.MaxAccountBlocksInMomentum + 1 + rng.Intn(40)
@@ -237,6 +261,8 @@ func poolHistory(rng *rand.Rand, out *Out) {
 			k = 90 // momentum right after
 		}
 		switch {
+		case k == 85 || k == 99: // a reorganisation by sync: a longer branch from an earlier momentum is delivered (reorg.go)
+			r.reorgBySync()
 		case k >= 91 && k < 96: // competing producers (compete.go)
 			r.competingProducers()
 		case k >= 86 && k < 91: // the pillar race: own momentum generated, the pool moves on, own momentum inserted (pillarrace.go)
@@ -323,21 +349,27 @@ func poolHistory(rng *rand.Rand, out *Out) {
 			opTerm := Con("OAdd", force, blockTerm(tx.Block))
 			r.what = fmt.Sprintf("competing block for pooled position %d of %d of %v (forced=%v)", idx+1, len(bv.pool), u.Address, force)
 			out.Count(fmt.Sprintf("pool:competitor-offered-at-pooled-position=%d-of-%d", min(idx+1, 5), min(len(bv.pool), 5)))
-			ins := nd.Ch.AcquireInsert("c14")
-			var e error
-			if force {
-				e = nd.Ch.ForceAddAccountBlockTransaction(ins, tx)
-			} else {
-				e = nd.Ch.AddAccountBlockTransaction(ins, tx)
+			// the competitor reaches the pool by one of the node's entries (entries.go): straight into the pool, published
+			// over rpc, relayed by a peer (the chain bridge's gossip entry); forced: as sync does it
+			en := entryPool
+			if !force {
+				en = []entry{entryPool, entryPool, entryGossip, entryGossip, entryPublish}[rng.Intn(5)]
 			}
-			ins.Unlock()
+			e, errKnown, pnc := r.deliver(nd, tx, force, en)
+			out.Oracle(pnc == nil, "pool-add-no-panic", Tup("competing block by "+en.String(), fmt.Sprint(pnc)))
+			out.Count("pool:competitor-entry=" + en.String())
 			after := r.checkAll(before, u.Address, true)
 			av := after[u.Address]
 			tag := "compete-" + []string{"equal-ratio", "better-ratio", "worse-ratio"}[rel]
 			if force {
 				tag += "-forced"
 			}
-			r.emitStep(bv, opTerm, errClassPool(e), av, tag)
+			if en != entryPool {
+				tag += "-by-" + en.String()
+			}
+			if installed := len(av.pool) > 0 && av.pool[len(av.pool)-1].Hash == tx.Block.Hash; errKnown || (installed && e == nil) {
+				r.emitStep(bv, opTerm, errClassPool(e), av, tag)
+			}
 			// winner by (plasma ratio, then smaller hash), evaluated without machine arithmetic
 			nb := tx.Block
 			l := new(big.Int).Mul(new(big.Int).SetUint64(nb.TotalPlasma), new(big.Int).SetUint64(inc.BasePlasma))
@@ -345,13 +377,18 @@ func poolHistory(rng *rand.Rand, out *Out) {
 			newWins := l.Cmp(rr) > 0 || (l.Cmp(rr) == 0 && hashZ(nb.Hash).Cmp(hashZ(inc.Hash)) < 0)
 			replaced := len(av.pool) == idx+1 && av.pool[idx].Hash == nb.Hash && sameHashes(av.pool[:idx], bv.pool[:idx])
 			unchanged := sameHashes(av.pool, bv.pool)
+			detail := func(expected string) M {
+				return M{"case": tag, "entry": en.String(), "expected": expected, "error": fmt.Sprint(e), "forced": force, "account": u.Address.String(), "pooled_position": I64(int64(idx + 1)),
+					"pooled_before": I64(int64(len(bv.pool))), "pooled_after": I64(int64(len(av.pool))),
+					"pooled_block": fmt.Sprintf("%v total=%d base=%d", inc.Hash, inc.TotalPlasma, inc.BasePlasma), "competitor": fmt.Sprintf("%v total=%d base=%d", nb.Hash, nb.TotalPlasma, nb.BasePlasma)}
+			}
 			switch {
 			case force || newWins:
-				out.Oracle(e == nil && replaced, "replacement-follows-priority-rule", Tup(tag, fmt.Sprint(e), newWins, force))
+				out.Oracle(e == nil && replaced, "replacement-follows-priority-rule", detail("the competitor replaces the pooled block and what was built on it"))
 			case l.Cmp(rr) < 0:
-				out.Oracle(errClassPool(e) == 1 && unchanged, "replacement-follows-priority-rule", Tup(tag, fmt.Sprint(e), "ratio worse"))
+				out.Oracle((errClassPool(e) == 1 || !errKnown) && unchanged, "replacement-follows-priority-rule", detail("ratio worse: pool unchanged"))
 			default:
-				out.Oracle(errClassPool(e) == 2 && unchanged, "replacement-follows-priority-rule", Tup(tag, fmt.Sprint(e), "tie-break"))
+				out.Oracle((errClassPool(e) == 2 || !errKnown) && unchanged, "replacement-follows-priority-rule", detail("equal ratio, hash not smaller: pool unchanged"))
 			}
 		case k < 80: // re-insert a pooled block (already inserted), or a bogus block straight into the pool
 			var tx *nom.AccountBlockTransaction
@@ -454,6 +491,8 @@ func poolHistory(rng *rand.Rand, out *Out) {
 				continue
 			}
 			after := r.checkAll(before, types.Address{}, false)
+			// the whole clause on every account, against the ledger as it is now (reorg.go)
+			r.afterDelete(r.what, true)
 			for _, uu := range r.users {
 				b, a := before[uu.Address], after[uu.Address]
 				ok := len(a.pool) == 0 && len(a.confirmed) <= len(b.confirmed) && sameHashes(a.confirmed, b.confirmed[:len(a.confirmed)])
